@@ -96,6 +96,16 @@ CLAIMS = {
                      "raw or pre-transformed) of the eight classes is replayed for points in all octants, on axes, diagonals, the cone, the "
                      "origin, radial edges, with signed zeros and scalings; projections compared by class and marginal contents",
                 technique="TLA+ spec PhystSpecial (integer geometry) + TLC; lockstep replay of all entry paths"),
+    "C16": dict(spec="PhystGeom", design="5/C16",
+                text="bin measures are exact rationals times pi computed by TLC per class (tables carried on the transition labels); TLC checks "
+                     "TotalMeasure (pi R^2, 4 pi, 4/3 pi R^3), AdditiveUnderMerge, CumulativeEndsAtTotal; bin_sizes, densities*bin_sizes = "
+                     "frequencies, widths/centres/edges (per-axis and mesh forms), total_width, cumulative frequencies compared on real objects",
+                technique="TLA+ spec PhystGeom (exact rational measures) + TLC invariants; per-class tables replayed against the implementation"),
+    "C17": dict(spec="PhystContainers+HistND+PhystIO", design="5/C17",
+                text="the Construct action's successor does not depend on container or chunking (ChunkingIrrelevant checked by TLC over all "
+                     "chunkings); each construction is replayed through 11 containers in 1D (incl. dask in every chunking) and 5 in ND and "
+                     "compared with the specification's state; xarray / pandas / Geant4 conversions of the PhystIO subjects round-tripped",
+                technique="TLA+ spec PhystContainers (+HistND, PhystIO) + TLC; container/chunking fan-out replay against the spec state"),
 }
 
 PENDING = {}
